@@ -218,6 +218,16 @@ def pairs_ok(scores, ref):
     return all(not (k[0] in ref and k[1] in ref) and k[0] != k[1] for k in scores)
 
 
+record("TranscriptToGeneJoinerS", {"gene_strands": "dict[str,str]", "gene_introns": "dict[str,set[tuple[int,int]]]",
+                                   "gene_regions": "dict[str,tuple[int,int]]"})
+contract(G + "TranscriptToGeneJoiner.count_score#strands", {"self": "rec:TranscriptToGeneJoinerS", "gene1": "str", "gene2": "str"},
+         returns="real", props=["C03", "C04"], native=False,
+         requires=["gene1 in self.gene_strands and gene2 in self.gene_strands", "gene1 in self.gene_introns and gene2 in self.gene_introns",
+                   "gene1 in self.gene_regions and gene2 in self.gene_regions",
+                   "self.gene_regions[gene1][0] <= self.gene_regions[gene1][1]", "self.gene_regions[gene2][0] <= self.gene_regions[gene2][1]"],
+         # two genes whose strands differ (an unknown strand '.' differs from '+' and from '-') are never candidates for a merge
+         ensures=["self.gene_strands[gene1] == self.gene_strands[gene2] or result == 0", "result >= 0"],
+         canary="result == 0")
 contract(G + "TranscriptToGeneJoiner.count_scores", {"self": "rec:TranscriptToGeneJoiner"}, returns="none", trusted=True, props=[],
          modifies=["self.scores"], ensures=["pairs_ok(self.scores, self.gene_info.gene_strands)"], native=False,
          note="nested loops over dict keys; assumed: pairs of two reference genes are skipped (checked natively by C03.gene_joiner)")
@@ -263,7 +273,7 @@ def _joiner_case(seed):
         base = rng.choice(ref_models)
         shift = rng.choice([0, 0, 37, 2000])
         ex = [(a + shift + (11 if i else 0), b + shift + (13 if i < len(base.exon_blocks) - 1 else 0)) for i, (a, b) in enumerate(base.exon_blocks)]
-        storage.append(gi_mod.TranscriptModel("chr1", base.strand if rng.random() < .8 else ("+" if base.strand == "-" else "-"),
+        storage.append(gi_mod.TranscriptModel("chr1", base.strand if rng.random() < .6 else rng.choice([("+" if base.strand == "-" else "-"), "."]),
                                               "transcript%d.chr1.nnic" % k, "novel_gene_chr1_%d" % rng.choice([2, 12, 30 + k]), ex,
                                               gi_mod.TranscriptModelType.novel_not_in_catalog))
     # novel models of one novel gene must share the strand (constructor's precondition)
@@ -283,6 +293,15 @@ def _joiner_case(seed):
                             % (m.transcript_id, m.gene_id, ginfo.gene_id_map[m.transcript_id]))
     if len({m.transcript_id for m in out}) != len(before):
         problems.append("models lost or duplicated")
+    # a gene record carries one strand: all transcripts reported under one gene id lie on the same strand (and on the reference gene's)
+    by_gene = {}
+    for m in out:
+        by_gene.setdefault(m.gene_id, set()).add(m.strand)
+        if m.gene_id in ginfo.gene_strands and m.strand != ginfo.gene_strands[m.gene_id]:
+            problems.append("transcript %s (strand %s) is reported under reference gene %s of strand %s" % (m.transcript_id, m.strand, m.gene_id, ginfo.gene_strands[m.gene_id]))
+    for g, ss in by_gene.items():
+        if len(ss) > 1:
+            problems.append("gene %s holds transcripts of strands %s" % (g, sorted(ss)))
     return problems
 
 
@@ -293,7 +312,8 @@ def replay_joiner(d):
 
 @bounded("C03.gene_joiner", ["C03", "C04"], shards=8, note="the real TranscriptToGeneJoiner on random loci (1-2 reference genes with ids of several "
          "shapes - upper case, lower case, previously generated novel_gene ids - and 1-4 overlapping novel models): every transcript "
-         "reported under a reference id keeps its reference gene; no model is lost")
+         "reported under a reference id keeps its reference gene; no model is lost; all transcripts of one reported gene share its strand "
+         "(novel models on the opposite or on an unknown strand included)")
 def c03_joiner(tier, rng):
     n = 600 if tier == "quick" else 30000
     base = rng.randrange(10 ** 9)
